@@ -1,7 +1,10 @@
 mod api;
+mod deviate;
 mod apigen;
 mod handle;
+mod mutate;
 mod names;
+mod raw;
 mod timeconv;
 mod util;
 
@@ -90,6 +93,9 @@ fn main() {
                 println!("ORACLE {}", v);
             }
         }
+        "raw" => raw::run(arg(&args, "--list").unwrap(), arg(&args, "--ops").unwrap(), arg(&args, "--impl").unwrap()),
+        "mutate" => mutate::run(arg_u64(&args, "--seed", 1), arg(&args, "--bases").unwrap(), arg(&args, "--outdir").unwrap(), arg_u64(&args, "--count", 100), arg(&args, "--list").unwrap()),
+        "deviate" => deviate::run(arg_u64(&args, "--seed", 1), arg(&args, "--bases").unwrap(), arg(&args, "--outdir").unwrap(), arg_u64(&args, "--combos", 3), arg(&args, "--list").unwrap()),
         "upper-dump" => names::upper_dump(arg(&args, "--out").unwrap()),
         "names" => {
             let ops = arg(&args, "--ops").unwrap();
